@@ -337,6 +337,8 @@ def teardown_contract(chk: Check, repo: Repo) -> None:
 
 
 def run(chk: Check, repo: Repo) -> None:
+    from .common_rules import refusal_during_connect_is_heard
+    refusal_during_connect_is_heard(chk, repo)
     teardown_contract(chk, repo)
     address_write(chk, repo)
     address_check(chk, repo)
